@@ -2,7 +2,8 @@
 
 stdin : {"uf": [ {"elts": [desc...], "ops": [[opname, args...], ...]}, ...], "pq": [ [[op,...],...], ...]}
 stdout: '@@JSON ' + {"uf": [[obs,...],...], "pq": [[obs,...],...]}
-An element descriptor is ["i", 3] | ["t", [1,2]] | ["s", "ab"]; element codes are positions in "elts".
+An element descriptor is ["i", 3] | ["t", [1,2]] | ["s", "ab"]; element codes are positions in "elts"
+(the op ["getitem", i] carries a raw integer index instead, answered ["elt", code] or ["indexerror"]).
 """
 import json
 import math
@@ -51,9 +52,15 @@ def run_uf(case):
     uf = UnionFind()
     out = []
     for op in case["ops"]:
-        name, args = op[0], [objs[a] for a in op[1:]]
+        name = op[0]
+        # `getitem` takes a raw integer index (possibly negative / out of range), every other op element codes
+        args = [] if name == "getitem" else [objs[a] for a in op[1:]]
         try:
-            if name == "add":
+            if name == "getitem":
+                r = uf[op[1]]
+                c = enc(r)
+                out.append(["elt", c] if c is not None else ["other", "uf[%d] returned %r" % (op[1], r)])
+            elif name == "add":
                 r = uf.add(*args)
                 out.append(["none"] if r is None else ["other", repr(r)])
             elif name == "union":
@@ -99,6 +106,8 @@ def run_uf(case):
                 out.append(["bool", args[0] in uf])
             else:
                 raise RuntimeError("unknown op " + name)
+        except IndexError:
+            out.append(["indexerror"])
         except ValueError as ex:
             # the documented error for an absent element is ValueError('... is not an element')
             if "is not an element" in str(ex):
